@@ -97,6 +97,7 @@ def solve_outcomes(repo):
     out = []
     for ran in (True, False):
         events: List[str] = []
+        solution_kwargs: Dict[str, str] = {}
 
         class _M(Machine):
             def with_(self, items, body):
@@ -125,6 +126,7 @@ def solve_outcomes(repo):
                 return ran
             if name == "Solution":
                 events.append("SOLUTION")
+                solution_kwargs.update({k_: render(v_) for k_, v_ in kwargs.items()})
                 return Opaque("SOLUTION", ("call", "Solution", list(args), dict(kwargs), None))
             if name == "SOLUTION.to_hdf5":
                 events.append("SAVE")
@@ -148,4 +150,6 @@ def solve_outcomes(repo):
         m = _M(env0, attrs, call, fuel=64, undecided=undecided)
         kind, val = m.run_function(fs.node)
         out.append((ran, events, (kind, val)))
+        if ran:
+            out[-1] = out[-1] + (solution_kwargs,)
     return out
